@@ -9,7 +9,9 @@
     * if `d + tick_dist == d` for a `d` that passes both guards, the loop never leaves `d`: the model answers
       `none` (= fuel-exhausted) for **every** fuel (`tick_loop_stuck_float`), the Rust loop does not terminate;
     * hence whenever the model yields a list (`spanTickDists p fuel = some ds`), the list is **strictly** increasing in
-      IEEE `<`: `tick_dist = d₁ < d₂ < … < len − min_dist`, `d_{i+1} = d_i + tick_dist`.
+      IEEE `<`: `tick_dist = d₁ < d₂ < … < len − min_dist`, `d_{i+1} = d_i + tick_dist`;
+    * `tick_loop_diverges_float`/`stream_diverges_float`: `SliderEventsIter::new(0, 1000, 1, 5e-324, 1e9, 1)` is accepted
+      (`len = 100000` by the clamp, the clamp `[0, len]` keeps the tick distance) and its tick loop never terminates.
   Part 2 (`ticks_chronological_float`). Division by a positive number, multiplication by a non-negative number, addition
   of a fixed number and `1 − ·` are monotone *after rounding* (Lemmas/FloatRoundMono.lean, Lemmas/FloatArithMono.lean), so
   the tick times `span_start + (d / len) · span_duration` (forward) and `span_start + (1 − d / len) · span_duration`
@@ -467,5 +469,126 @@ theorem stream_not_chronological_float_witness :
     some ([.head, .tick, .repeatPt, .tick, .repeatPt, .tick, .lastTick, .tail], false) := by decide +kernel
 
 end Examples
+
+/-! ## an input on which the Rust loop does not terminate
+
+`tick_loop_stuck_float` needs a loop value at which the increment is absorbed. For `tick_dist = 5e-324` (bit pattern 1)
+it is *reached*: the loop values are the doubles with bit patterns `1, 2, 3, …` (`k · 2⁻¹⁰⁷⁴`, every addition exact) up to
+`2⁵³`, where `2⁵³ + 1` is a tie that rounds to even, i.e. back to `2⁵³`. Proved for every fuel, without running the
+`2⁵³` turns. -/
+
+section Diverge
+open Float.Model Float.Model.UnpackedFloat
+
+/-- the double with bit pattern `k`: for `k < 2⁵³` this is `k · 2⁻¹⁰⁷⁴` (subnormals and the first normal binade). -/
+def tb (k : Nat) : Float := Float.ofBits (UInt64.ofNat k)
+
+theorem tb_unpack (k : Nat) (h0 : 0 < k) (hk : k < 2 ^ 53) :
+    FMR.IsFin (tb k).toModel.unpack .positive k (-1074) := by
+  have hn : (UInt64.ofNat k).toNat = k := by
+    rw [UInt64.toNat_ofNat']; exact Nat.mod_eq_of_lt (by omega)
+  unfold tb
+  rw [FM.float_unpack_ofBits _ (by rw [hn]; omega), hn]
+  unfold FM.unpackNat
+  by_cases hs : k < 2 ^ 52
+  · have h1 : k / 2 ^ 52 = 0 := Nat.div_eq_of_lt hs
+    have h2 : k % 2 ^ 52 = k := Nat.mod_eq_of_lt hs
+    have h3 : k / 2 ^ (52 + 11) = 0 := Nat.div_eq_of_lt (by omega)
+    simp only [h1, h2, h3]
+    rw [if_neg (by decide), if_pos (by decide), dif_neg (by omega)]
+    exact ⟨_, rfl⟩
+  · have h1 : k / 2 ^ 52 = 1 := by omega
+    have h2 : 2 ^ 52 + k % 2 ^ 52 = k := by omega
+    have h3 : k / 2 ^ (52 + 11) = 0 := Nat.div_eq_of_lt (by omega)
+    simp only [h1, h2, h3]
+    rw [if_neg (by decide), if_neg (by decide)]
+    exact ⟨_, rfl⟩
+
+/-- below `2⁵³ · 5e-324` adding the smallest double is exact. -/
+theorem tb_add_one (k : Nat) (h0 : 0 < k) (hk : k + 1 < 2 ^ 53) : tb k + tb 1 = tb (k + 1) := by
+  apply FTL.float_ext
+  obtain ⟨p1, e1⟩ := tb_unpack k h0 (by omega)
+  obtain ⟨p2, e2⟩ := tb_unpack 1 (by omega) (by omega)
+  obtain ⟨p3, e3⟩ := tb_unpack (k + 1) (by omega) hk
+  rw [FAM.float_add_unpack, e1, e2, e3, FMR.add_fin]
+  have hc : FMR.CanonFin Format.binary64 (k + 1) (-1074) := ⟨hk, by decide, Or.inr (by decide)⟩
+  have hsum : Sign.positive.apply ((k * 2 ^ ((-1074 : Int) - min (-1074) (-1074)).toNat : Nat) : Int) +
+      Sign.positive.apply ((1 * 2 ^ ((-1074 : Int) - min (-1074) (-1074)).toNat : Nat) : Int) = ((k + 1 : Nat) : Int) := by
+    simp [Sign.apply]
+  rw [hsum, Int.min_self, FMR.normalize_pos _ _ _ _ (by omega), Int.toNat_natCast,
+    FAM.round_canon_id _ _ _ _ p3 hc]
+  rcases FMR.repack_canon Format.binary64 (by decide) (.finite .positive (k + 1) (-1074) p3) hc with h | ⟨_, _, _, _, _, hnr, _⟩
+  · exact h
+  · exfalso; apply hnr
+    show (-1074 : Int) + ((Format.binary64.exponentBias : Nat) : Int) +
+      ((Format.binary64.mantissaBitsWithoutImplicit : Nat) : Int) + 1 < ((2 ^ Format.binary64.exponentBits : Nat) : Int)
+    decide
+
+theorem tb_le_top (k : Nat) (h0 : 0 < k) (hk : k < 2 ^ 53) : Scalar.le (tb k) (tb (2 ^ 53 - 1)) = true := by
+  rw [FMO.le_float]
+  obtain ⟨p1, e1⟩ := tb_unpack k h0 hk
+  obtain ⟨p2, e2⟩ := tb_unpack (2 ^ 53 - 1) (by decide) (by decide)
+  rw [e1, e2]
+  exact FMR.le_fin_pos (Or.inr ⟨rfl, by omega⟩) p1 p2
+
+/-- the parameters `SliderEventsIter::new(0, 1000, 1, 5e-324, 1e9, 1)` produces (`exStuck`): every loop value
+`k · 5e-324`, `k ≤ 2⁵³`, passes both guards, the additions are exact up to `2⁵³ · 5e-324` and absorbed there. -/
+theorem exStuck_loop : ∀ (j k : Nat), k + j = 2 ^ 53 → 0 < k → ∀ fuel, tickDists exStuck fuel (tb k) = none
+  | 0, k, hk, _ => by
+    have : k = 2 ^ 53 := by omega
+    subst this
+    exact tick_loop_stuck_float exStuck _ (by decide +kernel) (by decide +kernel) (by decide +kernel)
+      (by decide +kernel) (by decide +kernel)
+  | j + 1, k, hk, h0 => by
+    intro fuel
+    cases fuel with
+    | zero => rfl
+    | succ fuel =>
+      have hlt : k < 2 ^ 53 := by omega
+      have htop := tb_le_top k h0 hlt
+      have h1 : Scalar.le (tb k) exStuck.len = true :=
+        FMO.le_trans _ _ _ htop (by decide +kernel)
+      have h2 : Scalar.ge (tb k) (exStuck.len - exStuck.minDistFromEnd) = false := by
+        cases hc : Scalar.ge (tb k) (exStuck.len - exStuck.minDistFromEnd) with
+        | false => rfl
+        | true =>
+          have : Scalar.le (exStuck.len - exStuck.minDistFromEnd) (tb (2 ^ 53 - 1)) = true :=
+            FMO.le_trans _ _ _ hc htop
+          revert this
+          decide +kernel
+      have hstep : tb k + exStuck.tickDist = tb (k + 1) := by
+        by_cases hk1 : k + 1 < 2 ^ 53
+        · exact tb_add_one k h0 hk1
+        · have : k = 2 ^ 53 - 1 := by omega
+          subst this
+          decide +kernel
+      rw [tickDists, if_pos h1, if_neg (by simp [h2]), hstep, exStuck_loop j (k + 1) (by omega) (by omega) fuel]
+      rfl
+
+/-- **an input on which the Rust loop of `generate_ticks` does not terminate**: `SliderEventsIter::new(start = 0,
+span_duration = 1000, velocity = 1, tick_dist = 5e-324, total_dist = 1e9, span_count = 1)` succeeds with `len = 100000`,
+`tick_dist = 5e-324` (`exStuck`), and the tick loop exhausts **every** fuel: `d` climbs exactly through
+`k · 5e-324` up to `2⁵³ · 5e-324 = 2⁻¹⁰²¹` and stays there (`d + tick_dist == d`, `d < len − 10`). -/
+theorem tick_loop_diverges_float : ∀ fuel, spanTickDists exStuck fuel = none := by
+  intro fuel
+  unfold spanTickDists
+  rw [if_pos (by decide +kernel)]
+  exact exStuck_loop (2 ^ 53 - 1) 1 (by decide) (by decide) fuel
+
+/-- … hence the model of the iterator reports fuel exhaustion for every fuel and every number of `next` calls ≥ 2. -/
+theorem stream_diverges_float (fuel N : Nat) :
+    ∀ it, Iter.new (0 : Float) 1000 1 (Float.ofBits 1) 1e9 1 [] = some it → collect fuel N it = none := by
+  intro it hnew
+  refine stream_fuel_exhausted (0 : Float) 1000 1 (Float.ofBits 1) 1e9 1 [] fuel N it hnew (by omega) ?_
+  have hp : Params.new (0 : Float) 1000 1 (Float.ofBits 1) 1e9 1 = some exStuck := by decide +kernel
+  have : it.toParams = exStuck := by
+    unfold Iter.new at hnew
+    rw [hp] at hnew
+    simp only [Option.map_some, Option.some.injEq] at hnew
+    subst hnew; rfl
+  rw [this]
+  exact tick_loop_diverges_float fuel
+
+end Diverge
 
 end Rosu.C20
